@@ -80,8 +80,8 @@ CLAIMED["C18"] = (
     "Lean 4 model of PlaybookSerializer, exclude_dynamic_elements and verify; total fuelled decoder with a proved left inverse => serialiser injectivity; inductive confinement relation for exclusion; acceptance characterisation of verify; differential correspondence on ruamel objects with a stand-in GPG",
     "Proof (all values and plays, no size bound): the serialiser is injective and prefix-free (values, keys, order, nesting, types: decode_ser, ser_injective, serializePlay_injective, digest_changes with H injective); a successful exclusion removes only hosts/vars entries or "
     "their direct children (exclude_only_dynamic via the inductive relation Shrunk); value changes of excluded elements leave the signed text unchanged; a missing list, an invalid request or a missing signature is a verification error; verify() accepts only plays "
-    "whose signature is valid for the digest of the cleaned play and that have no matching revocation entry (verify_accepts, revoked_rejected, signature_binds_core). False today and recorded: a non-string exclusion list crashes instead of raising the verification "
-    "error (verifyPlay_error_partial + witness, known finding nonstring-exclusion-list). Tied: five correspondence streams (serialize, exclude+serialize_play+hash_play, verify_play, verify) on built and YAML-loaded ruamel objects + a digest<->core bijection oracle over all explored plays and single edits.",
+    "whose signature is valid for the digest of the cleaned play and that have no matching revocation entry (verify_accepts, revoked_rejected, signature_binds_core). every failure of exclusion or verify_play is a verification error, proved for all plays "
+    "(verifyPlay_fails_only_with_verr — full strength after repair 5a7421c; the two repaired defects 4738ca0 and 5a7421c are kept as regression witnesses, with Lean witnesses over models of the old behaviour). Tied: five correspondence streams (serialize, exclude+serialize_play+hash_play, verify_play, verify) on built and YAML-loaded ruamel objects + a digest<->core bijection oracle over all explored plays and single edits.",
     "Trusted: Lean kernel + propext/Classical.choice/Quot.sound; SHA-256 (and UTF-8) treated as injective (parameter H); GPG replaced by a stand-in; base64/fromhex from the standard library; YAML loading outside the model; floats, dates, binaries outside the quantifier; harness generators, canonicaliser and oracle.",
     "DESIGN.md §6 C18")
 
